@@ -609,3 +609,17 @@ Example conc_example :
                 A 1; A 1; L [A 0]; L []] in
   agree17 inp obs = true /\ mon17 inp obs = [].
 Proof. vm_compute. split; reflexivity. Qed.
+
+(** In general: the judge's agreement test for kind 2 is a function of
+    obs[0..3]; the event log obs[4] is free. *)
+Lemma run_conc_ignores_log inp o0 o1 o2 o3 lg lg' :
+  run_conc inp (L [o0; o1; o2; o3; lg]) = run_conc inp (L [o0; o1; o2; o3; lg']).
+Proof. reflexivity. Qed.
+
+Theorem agreement_ignores_log inp o0 o1 o2 o3 lg lg' : sx_Z (sx_nth inp 0) = 2 ->
+  agree17 inp (L [o0; o1; o2; o3; lg]) = agree17 inp (L [o0; o1; o2; o3; lg']).
+Proof.
+  intros Hk. unfold agree17, judge17, judge_conc. rewrite Hk.
+  rewrite (run_conc_ignores_log inp o0 o1 o2 o3 lg lg').
+  destruct (run_conc inp (L [o0; o1; o2; o3; lg'])) as [a mo]. rewrite !agree_verdict. reflexivity.
+Qed.
